@@ -43,6 +43,12 @@ def fixed_cases():
                                         "u": {"constructor": "fx.NewA", "arguments": ["@t"]}, "v": {"constructor": "fx.NewA", "scope": "non_shared", "tags": ["y"]}},
          "__files__": [{"meta": dict(fx), "services": {"t": {"todo": True, "constructor": "fx.NewA", "arguments": ["draft"]}, "v": {"constructor": "fx.NewA", "scope": "non_shared"}}},
                        {"services": {"t": {"tags": ["x"]}, "u": {"constructor": "fx.NewA", "arguments": ["@t"]}, "v": {"tags": ["y"]}}}]},
+        # a call repeated word for word is executed every time it is declared — also when the repetitions come from different files
+        {"meta": dict(fx), "services": {"r": {"constructor": "fx.NewA", "calls": [["Call1", [1]], ["With1", ["w"], True], ["Call1", [10]], ["Call1", [1]], ["With1", ["w"], True], ["Call1", [1]]]},
+                                        "q": {"constructor": "fx.NewB", "arguments": [7], "calls": [["Call2", []], ["Call2", []]]}},
+         "__files__": [{"meta": dict(fx), "services": {"r": {"constructor": "fx.NewA", "calls": [["Call1", [1]], ["With1", ["w"], True]]}, "q": {"constructor": "fx.NewB", "arguments": [7], "calls": [["Call2", []]]}}},
+                       {"services": {"r": {"calls": [["Call1", [10]], ["Call1", [1]], ["With1", ["w"], True]]}, "q": {"calls": [["Call2", []]]}}},
+                       {"services": {"r": {"calls": [["Call1", [1]]]}}}]},
     ]
 
 
